@@ -109,7 +109,8 @@ impl TryFrom<JwkExt> for Jwk {
 
     let (kty, params) = match value.key_params {
       JwkAlgorithmParameters::EllipticCurve(p) => (JwkType::Ec, JwkParams::Ec(JwkParamsEc::from(p))),
-      _ => unreachable!(),
+      // Only elliptic curve keys are converted (see the opposite conversion below); any other key is refused.
+      _ => return Err(Self::Error::InvalidParam("Parameters not supported!")),
     };
 
     Ok(Self {
